@@ -44,6 +44,8 @@ package parquet
 
 //@ func compress
 //@   requires buf != nil
+//@   requires[C13] !sel(relArr, ref(buf.B)) && !sel(relArr, ref(vals))
+//@   ensures[C13] !sel(relArr, ref(res2))
 //@   modifies buf, HA(buf.B)
 //@   ensures sameOrFresh(buf.B)
 //@   ensures[C09] res3 == nil ==> (wfault ==> old(wfault))
@@ -65,15 +67,17 @@ package parquet
 
 //@ func (*RequiredField).DoWrite
 //@   requires f != nil && metaOK(meta) && external(w)
+//@   requires[C13] !sel(relArr, ref(vals))
 //@   ensures metaOK(meta) && meta.rowGroups == old(meta.rowGroups)
-//@   modifies meta, HA(meta.rowGroups), heap("sch.ColumnMetaData"), heap("map[string]sch.ColumnChunk"), wfault
+//@   modifies meta, HA(meta.rowGroups), heap("sch.ColumnMetaData"), heap("map[string]sch.ColumnChunk"), wfault, relArr
 //@   ensures[C09] err == nil ==> (wfault ==> old(wfault))
 
 //@ func (*OptionalField).DoWrite
 //@   requires f != nil && metaOK(meta) && external(w)
+//@   requires[C13] !sel(relArr, ref(vals))
 //@   ensures metaOK(meta) && meta.rowGroups == old(meta.rowGroups)
 //@   free-requires 1 <= f.MaxLevels.Def && f.MaxLevels.Def <= 15 && f.MaxLevels.Rep <= 15 && (f.repeated ==> 1 <= f.MaxLevels.Rep)
-//@   modifies meta, HA(meta.rowGroups), heap("sch.ColumnMetaData"), heap("map[string]sch.ColumnChunk"), wfault
+//@   modifies meta, HA(meta.rowGroups), heap("sch.ColumnMetaData"), heap("map[string]sch.ColumnChunk"), wfault, relArr
 //@   ensures[C09] err == nil ==> (wfault ==> old(wfault))
 
 // ---- footer and schema
